@@ -111,7 +111,7 @@ def backend_runs(r, quick):
 
 
 def run():
-    chk = Check("C02", props_modules=["GFO.Props.C02", "GFO.Props.LocalRuns"])
+    chk = Check("C02", props_modules=["GFO.Props.C02", "GFO.Props.LocalRuns", "GFO.Props.GridRuns"])
     chk.build_and_audit()
     r = C.rng("C02")
     quick = C.tier() != "thorough"
@@ -128,5 +128,6 @@ def run():
     chk.assumptions.append("constraints are deterministic functions of the parameter set; that each optimizer's iterate has the shape 'emit only after a positive check' is established per run by the constraint log, not by a theorem per optimizer")
     from . import localgen
     localgen.add_to(chk, C.rng("C02-local"), 8 if C.tier() != "thorough" else 80, constraint_p=1.0)
+    localgen.add_grid_to(chk, C.rng("C02-grid"), 30 if C.tier() != "thorough" else 300, constraint_p=1.0)
     scen.shutdown_manager()
     return chk.finish()
